@@ -40,6 +40,9 @@ CLASS_VARIANTS = (
     *({'rename': s} for s in STYLES), *({'in_rename': s} for s in STYLES), *({'out_rename': s} for s in STYLES),
     {'in_rename': ('camel', 'kebab')}, {'in_rename': ('snake', 'scream'), 'out_rename': 'pascal'}, {'rename': 'camel', 'allow_extra': True},
     {'rename': 'kebab', 'in_format': ('struct', 'tuple')},
+    # extras allowed AND positional input: allow_extra is about unknown KEYS; a sequence longer than the positional count stays refused
+    {'allow_extra': True, 'in_format': ('tuple',)}, {'allow_extra': True, 'in_format': ('struct', 'tuple')},
+    {'allow_extra': True, 'in_format': ('tuple', 'struct'), 'out_format': 'tuple'},
 )
 
 
